@@ -111,10 +111,14 @@ storage_set(struct Storage* self, const struct StorageProperties* settings)
     CHECK(self);
     CHECK(settings);
 
+    const enum DeviceState previous = self->state;
     self->state = self->set(self, settings);
     EXPECT(DeviceState_Armed == self->state,
            "Expected Armed. Got %s.",
            device_state_as_string(self->state));
+    // Accepting new settings does not stop a running device (see camera_set).
+    if (previous == DeviceState_Running)
+        self->state = DeviceState_Running;
 
     return Device_Ok;
 
